@@ -191,6 +191,15 @@ def apply_fn_sections(s, fnsec, item_lo, item_hi, log, copies, skip=frozenset())
             ret = ret.replace('Self::', '')
             body = s[bo:bc + 1]
             copies.append('pub fn %s(%s) -> (r: %s)\n%s%s\n' % (sub.arg, params, ret, txt, body))
+        elif sub.kind in ('must_before', 'must_after'):
+            # statement-anchored OBLIGATION (an assertion that belongs to a property): a lost anchor is fatal (exit 2)
+            a, b = find_anchor(s, m, sub.arg, bo, bc, where)
+            if sub.kind == 'must_before':
+                la = s.rfind('\n', 0, a) + 1
+                s = s[:la] + txt + s[la:]
+            else:
+                le = s.find('\n', b)
+                s = s[:le + 1] + txt + s[le + 1:]
         elif sub.kind in ('before', 'after'):
             # statement-anchored proof hints: when the statement is gone the hint is dropped and the function is
             # marked hint-less (a failure in it is then UNDECIDED, never a violation; success still counts)
